@@ -75,8 +75,12 @@ def engine_cases(
             job["launch_error"] = True
         elif chance(draw, adopt_pct):
             job["adopt"] = True
-        if chance(draw, marker_pct):
+        if chance(draw, 85 if job.get("adopt") else marker_pct):
+            # the exit status is read from the marker files (always so for a process taken back from
+            # an earlier run: it is not a child of this scheduler)
             job["code_via_marker"] = True
+            if job.get("adopt") and job["code"] and chance(draw, 40):
+                job["killed"] = True  # died (SIGKILL) without leaving .done or .failed
         jobs.append(job)
     plan = [["submit", j] for j in range(n)]
     extras = []
